@@ -49,8 +49,18 @@ def make_canon(index, cls, extra_family=None, local_types=None):
             cache[d] = d
             return d
         out = [root]
-        for p in parts[1:]:
+        todo = list(parts[1:])
+        expanded = 0
+        while todo:
+            p = todo.pop(0)
             nxt = None
+            if cur is not None and expanded < 6:
+                # a property that only hands out an attribute of a component (`return self.pressure.profile`) is that path
+                ch = index.getter_chain(cur, p)
+                if ch is not None:
+                    todo = ch + todo
+                    expanded += 1
+                    continue
             if cur is not None:
                 seen = 0
                 while seen < 4:  # follow chains of trivial getters
